@@ -640,6 +640,148 @@ theorem inits_values {ρ : Store V} {L : Locals} {env1 : Env V} : ∀ {inits sta
     obtain ⟨st, hm, ha⟩ := ih (fun y hy => hf y (List.mem_cons_of_mem _ hy))
     exact ⟨v :: st, by simp [List.mapM_cons, hv, hm], All2.cons _ _ _ _ hρ ha⟩
 
+/-! ## What the loop simulations need to know about a loop body -/
+
+/-- `ns` evaluates `env` to `env'` at every large enough fuel. -/
+def EvFrom (S : Sem V) (env : Env V) (ns : List Node) (env' : Env V) : Prop :=
+  ∃ G0, ∀ G, G0 ≤ G → evalNodes S G env ns = some env'
+
+theorem EvFrom.of_eval {S : Sem V} {env env' : Env V} {ns : List Node} {G : Nat}
+    (h : evalNodes S G env ns = some env') : EvFrom S env ns env' :=
+  ⟨G, fun G' hG' => evalNodes_mono S ns G G' _ _ hG' h⟩
+
+theorem EvFrom.seq {S : Sem V} {env env1 env2 : Env V} {a b : List Node}
+    (h1 : EvFrom S env a env1) (h2 : EvFrom S env1 b env2) : EvFrom S env (a ++ b) env2 := by
+  obtain ⟨G1, e1⟩ := h1
+  obtain ⟨G2, e2⟩ := h2
+  exact ⟨max G1 G2, fun G hG => evalNodes_seq (e1 G (by omega)) (e2 G (by omega))⟩
+
+/-- The facts about a block `body`, translated with live-out `F`, that the simulation of a loop around it uses:
+how it runs, that its translation simulates it, its castable bookkeeping, that it has no `break` at its top
+level, and how liveness / exposed uses split over it. -/
+structure BodyFacts (S : Sem V) (fuel : Nat) (body : List Stmt) (F : VSet) : Prop where
+  run : ∀ {ρ : Store V} {o : Outcome V}, AllT ρ → evalBlock S fuel body ρ = some o →
+    ∃ ρ1, o = .normal ρ1 ∧ RunOK ρ ρ1 (assignedBlock body)
+  sim : ∀ {L L' : Locals} {ρ ρ1 : Store V} {env : Env V} {s s' : St} {ns : List Node},
+    Inv S (liveInBlock body F) ρ L env s → evalBlock S fuel body ρ = some (.normal ρ1) →
+    convStmts L body F s = .ok ((L', ns), s') →
+    ∃ env', EvFrom S env ns env' ∧ Inv S F ρ1 L' env' s' ∧ Ext env env' s s' ∧ Mono s s'
+  cast : ∀ {L L' : Locals} {ns : List Node} {s s' : St}, convStmts L body F s = .ok ((L', ns), s') → CastOK s s'
+  nobrk : ∀ st, st ∈ body → ∀ c, st ≠ .brk c
+  /-- a live-in of the body from a live-out inside `F` is an exposed use of the body or comes from that live-out -/
+  toExp : ∀ {Z : VSet} {y : Name}, (∀ z, z ∈ Z → z ∈ F) → y ∈ liveInBlock body Z →
+    y ∈ exposedBlock body [] ∨ y ∈ Z
+  /-- an exposed use of the body is live at its head -/
+  ofExp : ∀ y, y ∈ exposedBlock body [] → y ∈ liveInBlock body F
+  /-- liveness of the body is monotone below `F` -/
+  mono : ∀ {Z : VSet} {y : Name}, (∀ z, z ∈ Z → z ∈ F) → y ∈ liveInBlock body Z → y ∈ liveInBlock body F
+
+/-- What is needed of the live-out set `F` the body of `for i in range(b): body` is translated with, in terms of
+the exposed uses of the body (which is what `loop_state_vars` is computed from). -/
+structure ForLiveE (i : Name) (body : List Stmt) (lo F : VSet) : Prop where
+  lo_sub : ∀ y, y ∈ lo → y ∈ F
+  back : ∀ y, y ∈ liveInBlock body F → y ≠ i → y ∈ F
+  sub_exposed : ∀ y, y ∈ F → y ∈ exposedBlock body [] ∨ y ∈ lo
+
+theorem forLiveE_of_stable {S : Sem V} {fuel : Nat} {i : Name} {ok : Bool} {b : Expr} {body : List Stmt} {lo : VSet}
+    (hB : BodyFacts S fuel body (loopBodyLo (.for_ i ok b body) lo))
+    (hst : stableStmt (.for_ i ok b body) lo = true) :
+    ForLiveE i body lo (loopBodyLo (.for_ i ok b body) lo) := by
+  unfold stableStmt at hst
+  simp only [Bool.and_eq_true] at hst
+  obtain ⟨⟨h1, h2⟩, _⟩ := hst
+  have hback : ∀ y, y ∈ liveInBlock body (loopBodyLo (.for_ i ok b body) lo) → y ≠ i →
+      y ∈ loopBodyLo (.for_ i ok b body) lo :=
+    fun y hy hne => vsubset_mem h2 y (mem_vdiff.mpr ⟨hy, by simpa using hne⟩)
+  have hlo := vsubset_mem h1
+  refine ⟨hlo, hback, ?_⟩
+  have hP : ∀ y, y ∈ loopBodyLo (.for_ i ok b body) lo →
+      y ∈ loopBodyLo (.for_ i ok b body) lo ∧ (y ∈ exposedBlock body [] ∨ y ∈ lo) := by
+    intro y hy
+    exact ⟨hy, by
+      revert y
+      show ∀ y, y ∈ loopBodyLo (.for_ i ok b body) lo → (y ∈ exposedBlock body [] ∨ y ∈ lo)
+      have key : ∀ y, y ∈ loopBodyLo (.for_ i ok b body) lo →
+          y ∈ loopBodyLo (.for_ i ok b body) lo ∧ (y ∈ exposedBlock body [] ∨ y ∈ lo) := by
+        conv => enter [y]; lhs; simp only [loopBodyLo]
+        apply fixIter_inv (fun X => ∀ y, y ∈ X →
+          y ∈ loopBodyLo (.for_ i ok b body) lo ∧ (y ∈ exposedBlock body [] ∨ y ∈ lo))
+        · intro X hX y hy
+          rcases mem_vunion.mp hy with h | h
+          · obtain ⟨h, hni⟩ := mem_vdiff.mp h
+            have hne : y ≠ i := by simpa using hni
+            refine ⟨hback y (hB.mono (fun z hz => (hX z hz).1) h) hne, ?_⟩
+            rcases hB.toExp (fun z hz => (hX z hz).1) h with h' | h'
+            · exact Or.inl h'
+            · exact (hX y h').2
+          · exact ⟨hlo y h, Or.inr h⟩
+        · intro y hy; exact ⟨hlo y hy, Or.inr hy⟩
+      exact fun y hy => (key y hy).2⟩
+  exact fun y hy => (hP y hy).2
+
+theorem ForLive.toE {i : Name} {body : List Stmt} {lo F : VSet} (h : ForLive i body lo F)
+    (hexp : exposedBlock body [] = liveInBlock body []) : ForLiveE i body lo F :=
+  ⟨h.lo_sub, h.back, fun y hy => by rw [hexp]; exact h.sub_exposed y hy⟩
+
+theorem convLoopBody_nobrk : ∀ (ss : List Stmt) (L : Locals) (lo : VSet) {L' : Locals} {ns : List Node}
+    {bc : Option Name} {s s' : St}, (∀ st, st ∈ ss → ∀ c, st ≠ .brk c) →
+    convLoopBody L ss lo s = .ok ((L', ns, bc), s') → convStmts L ss lo s = .ok ((L', ns), s') ∧ bc = none := by
+  intro ss
+  induction ss with
+  | nil =>
+    intro L lo L' ns bc s s' _ h
+    unfold convLoopBody at h
+    obtain ⟨e1, e2⟩ := pure_ok h
+    cases e1; subst e2
+    exact ⟨by simp [convStmts, pure, M.pure], rfl⟩
+  | cons st ss ih =>
+    intro L lo L' ns bc s s' hi h
+    rw [convLoopBody_cons_nonbrk L st ss lo (hi st List.mem_cons_self)] at h
+    mbind h with p s1 h1
+    obtain ⟨L1, ns1⟩ := p
+    try dsimp only at h
+    mbind h with p s2 h2
+    obtain ⟨L2, ns2, bc'⟩ := p
+    try dsimp only at h
+    obtain ⟨e1, e2⟩ := pure_ok h
+    cases e1; subst e2
+    obtain ⟨h2', rfl⟩ := ih L1 lo (fun st' hs' => hi st' (List.mem_cons_of_mem _ hs')) h2
+    refine ⟨?_, rfl⟩
+    unfold convStmts
+    show (M.bind (convStmt L st (liveInBlock ss lo)) _) s = _
+    unfold M.bind
+    rw [h1]
+    simp only
+    show (M.bind (convStmts L1 ss lo) _) s1 = _
+    unfold M.bind
+    rw [h2']
+    rfl
+
+theorem bodyFacts_of_ifBlock (S : Sem V) (fuel : Nat) (hConst : ∀ l, ∃ c, constOf S l = some c)
+    (hId : ∀ v, S.op "" "Identity" [some v] [] = some [v]) {body : List Stmt} (F : VSet)
+    (h : ifBlock body = true) : BodyFacts S fuel body F where
+  run := fun hρ he => ifBlock_run S fuel body h hρ he
+  sim := fun hinv he hc => by
+    obtain ⟨env', ev, inv, x, m⟩ := block_step S fuel hConst hId body F h hinv he hc
+    exact ⟨env', EvFrom.of_eval ev, inv, x, m⟩
+  cast := fun hc => ifBlock_cast _ body F h hc
+  nobrk := by
+    intro st hst
+    induction body with
+    | nil => cases hst
+    | cons s0 ss ih =>
+      simp only [ifBlock, Bool.and_eq_true] at h
+      rcases List.mem_cons.mp hst with rfl | hm
+      · exact ifStmt_not_brk h.1
+      · exact ih h.2 hm
+  toExp := fun {Z y} _ hx => by
+    rw [exposed_eq_live_block body [] h]
+    exact live_rel_block body (A := []) (X := Z) h (fun z hz => Or.inr hz) hx
+  ofExp := fun y hy => by
+    rw [exposed_eq_live_block body [] h] at hy
+    exact live_mono_block h (fun _ hz => by cases hz) hy
+  mono := fun hz hx => live_mono_block h hz hx
+
 /-- What stays true of the Python store over the iterations of a loop, relative to the store `ρ` at entry. -/
 structure Along (ρ ρk : Store V) (d : VSet) (i : Name) : Prop where
   allT : AllT ρk
@@ -650,16 +792,17 @@ theorem for_step (S : Sem V) (fuel : Nat) (hConst : ∀ l, ∃ c, constOf S l = 
     (hId : ∀ v, S.op "" "Identity" [some v] [] = some [v]) (hT : S.truth (S.ofBool true) = some true)
     {i : Name} {b : Expr} {body : List Stmt} {lo d : VSet} {ρ ρ' : Store V} {L L' : Locals} {env : Env V}
     {s s' : St} {ns : List Node}
-    (hb : tensorRhs b = true) (hbody : ifBlock body = true) (hd : assignedBlock body = some d)
+    (hb : tensorRhs b = true) (hB : BodyFacts S fuel body (loopBodyLo (.for_ i true b body) lo))
+    (hd : assignedBlock body = some d)
     (hid : i ∉ d)
-    (hF : ForLive i body lo (loopBodyLo (.for_ i true b body) lo))
+    (hF : ForLiveE i body lo (loopBodyLo (.for_ i true b body) lo))
     (hinv : Inv S (liveInStmt (.for_ i true b body) lo) ρ L env s)
     (he : evalStmt S fuel (.for_ i true b body) ρ = some (.normal ρ'))
     (h : convStmt L (.for_ i true b body) lo s = .ok ((L', ns), s')) :
     ∃ G env', evalNodes S G env ns = some env' ∧ Inv S lo ρ' L' env' s' ∧ Ext env env' s s' ∧ Mono s s' := by
   have hfr := convStmt_fresh L _ lo h
   have hsc := convStmt_scope L _ lo hinv.vis (fun x hx => hx) h
-  generalize hFdef : loopBodyLo (.for_ i true b body) lo = F at hF h
+  generalize hFdef : loopBodyLo (.for_ i true b body) lo = F at hF h hB
   have hLin : liveInStmt (.for_ i true b body) lo = vunion F (usedVars b) := by
     rw [← hFdef]; simp [liveInStmt, loopBodyLo]
   -- source side
@@ -704,7 +847,7 @@ theorem for_step (S : Sem V) (fuel : Nat) (hConst : ∀ l, ∃ c, constOf S l = 
         obtain ⟨q1, q2⟩ := pure_ok h
         cases q1; subst q2
         rw [hFdef] at h4
-        obtain ⟨h4c, hbc⟩ := convLoopBody_ifBlock body L1 F hbody h4
+        obtain ⟨h4c, hbc⟩ := convLoopBody_nobrk body L1 F hB.nobrk h4
         subst hbc
         clear h4
         have h4 := h4c
@@ -730,22 +873,21 @@ theorem for_step (S : Sem V) (fuel : Nat) (hConst : ∀ l, ∃ c, constOf S l = 
         cases q1; subst q2
         obtain ⟨rfl, rfl, hinits⟩ := loopInits_val L hinv.noattr state h5c
         -- the state variables
-        have hstate : ∀ x, x ∈ state ↔ x ∈ d ∧ (x ∈ liveInBlock body [] ∨ x ∈ lo) := by
+        have hstate : ∀ x, x ∈ state ↔ x ∈ d ∧ (x ∈ exposedBlock body [] ∨ x ∈ lo) := by
           intro x
           unfold loopState at hs
           rw [hd] at hs
           simp only at hs
           cases hs
           rw [mem_vinter, mem_vunion]
-          unfold exposedUses
-          rw [exposed_eq_live_block body [] hbody]
+          rfl
         have histate : i ∉ state := fun hm => hid ((hstate i).mp hm).1
         have hstF : ∀ x, x ∈ state → x ∈ F := by
           intro x hx
           obtain ⟨hxd, hx'⟩ := (hstate x).mp hx
           have hxi : x ≠ i := fun he' => hid (he' ▸ hxd)
           rcases hx' with h' | h'
-          · exact hF.back x (live_mono_block hbody (fun _ hy => by cases hy) h') hxi
+          · exact hF.back x (hB.ofExp x h') hxi
           · exact hF.lo_sub x h'
         have hFlive : ∀ y, y ∈ F → y ∈ liveInStmt (.for_ i true b body) lo := by
           intro y hy; rw [hLin]; exact mem_vunion.mpr (Or.inl hy)
@@ -799,7 +941,7 @@ theorem for_step (S : Sem V) (fuel : Nat) (hConst : ∀ l, ∃ c, constOf S l = 
         have hcnode : cnode = Node.op "" "Identity" [some condIn] [condOut] [] := by
           rw [← hcn]; rfl
         obtain ⟨hofresh, houused, hocast⟩ := genUnique_spec h5a
-        have k4 := ifBlock_cast L1 body F hbody h4
+        have k4 := hB.cast h4
         have k4a := genUnique_cast h5a
         -- the invariant at the start of an iteration
         have mkInv : ∀ (k : Nat) (cnd : V) (st : List V) (ρk : Store V), Along ρ ρk d i →
@@ -838,8 +980,8 @@ theorem for_step (S : Sem V) (fuel : Nat) (hConst : ∀ l, ∃ c, constOf S l = 
                 cases hyq
                 exact ⟨r, by rw [hL1eq]; exact hl, hev,
                   hnotcast3 r (List.mem_cons_of_mem _ (List.mem_cons_of_mem _ hrn))⟩
-              · have hyE : y ∈ liveInBlock body [] ∨ y ∈ lo := by
-                  rcases live_rel_block body (A := []) (X := F) hbody (fun z hz => Or.inr hz) hyL with h' | h'
+              · have hyE : y ∈ exposedBlock body [] ∨ y ∈ lo := by
+                  rcases hB.toExp (fun z hz => hz) hyL with h' | h'
                   · exact Or.inl h'
                   · exact hF.sub_exposed y h'
                 have hyd : y ∉ d := fun hdm => hys ((hstate y).mpr ⟨hdm, hyE⟩)
@@ -862,36 +1004,37 @@ theorem for_step (S : Sem V) (fuel : Nat) (hConst : ∀ l, ∃ c, constOf S l = 
         have iter : ∀ (left k : Nat) (ρk ρf : Store V) (st : List V), Along ρ ρk d i →
             All2 (fun v x => ρk x = some (PV.t v)) st state →
             iterFor S i (fun r => evalBlock S fuel body r) left k ρk = some (.normal ρf) →
-            ∀ (G a : Nat), fuel ≤ G → left + 1 ≤ a →
+            ∃ G0, ∀ (G a : Nat), G0 ≤ G → left + 1 ≤ a →
             ∃ stf, loopIter S (loopBodyFn S (fun e => evalNodes S G e (bn ++ cnode :: ns3)) env1
                 (iv :: condIn :: ps) (condOut :: os)) a (some left) k (S.ofBool true) st = some stf
               ∧ All2 (fun v x => ρf x = some (PV.t v)) stf state ∧ Along ρ ρf d i := by
           intro left
           induction left with
           | zero =>
-            intro k ρk ρf st hal hR hit G a _ ha
+            intro k ρk ρf st hal hR hit
             simp only [iterFor] at hit
             cases hit
+            refine ⟨0, fun G a _ ha => ?_⟩
             cases a with
             | zero => omega
             | succ a' => exact ⟨st, by simp [loopIter], hR, hal⟩
           | succ left ih =>
-            intro k ρk ρf st hal hR hit G a hG ha
+            intro k ρk ρf st hal hR hit
             simp only [iterFor] at hit
             cases hbk : evalBlock S fuel body (ρk.set i (.t (S.ofNat k))) with
             | none => simp [hbk] at hit
             | some o1 =>
-              obtain ⟨ρ1, rfl, run1⟩ := ifBlock_run S fuel body hbody (hal.allT.set i (S.ofNat k)) hbk
+              obtain ⟨ρ1, rfl, run1⟩ := hB.run (hal.allT.set i (S.ofNat k)) hbk
               simp only [hbk] at hit
               have invk := mkInv k (S.ofBool true) st ρk hal hR
-              obtain ⟨envB, evB, invB, xB, mB⟩ := block_step S fuel hConst hId body F hbody invk hbk h4
-              have evBG := evalNodes_mono S bn fuel G _ _ hG evB
+              obtain ⟨envB, ⟨G1, evB⟩, invB, xB, mB⟩ := hB.sim invk hbk h4
               -- the condition output
               have hcondB : envB condIn = some (S.ofBool true) := by
                 rw [xB.envSame condIn hcondIn3, envSetMany_cons, envSetMany_cons,
                   envSetMany_frame _ _ _ condIn hcond_ps]
                 exact Env.set_same _ _ _
-              have evC : evalNodes S G envB [cnode] = some (envB.set condOut (S.ofBool true)) := by
+              have evC : ∀ G, evalNodes S G envB [cnode] = some (envB.set condOut (S.ofBool true)) := by
+                intro G
                 rw [hcnode]
                 exact evalNodes_op1 (vs := [some (S.ofBool true)])
                   (by simp [List.mapM_cons, Env.getOpt, hcondB]) (hId _)
@@ -911,18 +1054,21 @@ theorem for_step (S : Sem V) (fuel : Nat) (hConst : ∀ l, ∃ c, constOf S l = 
                   rw [hl] at hl'
                   cases hl'
                   exact ⟨v, hr.1, rfl⟩
-              obtain ⟨envD, evD, xD, _, mD, aD⟩ :=
-                loopOutputs_sim S G hId L2 invC.noattr state (bn ++ [cnode]) [condOut] invC.vis hfO h5b
+              obtain ⟨envD, evD0, xD, _, mD, aD⟩ :=
+                loopOutputs_sim S 0 hId L2 invC.noattr state (bn ++ [cnode]) [condOut] invC.vis hfO h5b
+              have evD : ∀ G, evalNodes S G (envB.set condOut (S.ofBool true)) ns3 = some envD :=
+                fun G => evalNodes_mono S ns3 0 G _ _ (Nat.zero_le G) evD0
               obtain ⟨rs, hrs, hallD⟩ := outs_values aD
               have hcoD : envD condOut = some (S.ofBool true) := by
                 rw [xD.envSame condOut (by rw [houused]; exact List.mem_cons_self)]
                 exact Env.set_same _ _ _
-              have hbodyk : loopBodyFn S (fun e => evalNodes S G e (bn ++ cnode :: ns3)) env1
+              have hbodyk : ∀ G, G1 ≤ G → loopBodyFn S (fun e => evalNodes S G e (bn ++ cnode :: ns3)) env1
                   (iv :: condIn :: ps) (condOut :: os) k (S.ofBool true) st = some (S.ofBool true, rs) := by
+                intro G hG
                 unfold loopBodyFn
                 have : evalNodes S G (Env.setMany env1 (iv :: condIn :: ps) (S.ofNat k :: S.ofBool true :: st))
                     (bn ++ cnode :: ns3) = some envD := by
-                  have := evalNodes_seq evBG (evalNodes_seq (a := [cnode]) evC evD)
+                  have := evalNodes_seq (evB G hG) (evalNodes_seq (a := [cnode]) (evC G) (evD G))
                   simpa using this
                 simp only [this, Env.getMany, List.mapM_cons, hcoD, hrs]
                 rfl
@@ -938,13 +1084,15 @@ theorem for_step (S : Sem V) (fuel : Nat) (hConst : ∀ l, ∃ c, constOf S l = 
                    unfold Store.set
                    simp only [hxi, if_false]
                    exact hal.frame x hxd hxi⟩
+              obtain ⟨G0', hih⟩ := ih (k + 1) ρ1 ρf rs hal1 hallD hit
+              refine ⟨max G1 G0', fun G a hG ha => ?_⟩
               cases a with
               | zero => omega
               | succ a' =>
-                obtain ⟨stf, hit', hRf, halF⟩ := ih (k + 1) ρ1 ρf rs hal1 hallD hit G a' hG (by omega)
+                obtain ⟨stf, hit', hRf, halF⟩ := hih G a' (by omega) (by omega)
                 refine ⟨stf, ?_, hRf, halF⟩
                 unfold loopIter
-                simp only [hT, hbodyk]
+                simp only [hT, hbodyk G (by omega)]
                 simpa using hit'
         -- the values the loop starts with
         have hf0 : ∀ x, x ∈ state → ∀ m, lookup L x = some (.val m) →
@@ -960,16 +1108,17 @@ theorem for_step (S : Sem V) (fuel : Nat) (hConst : ∀ l, ∃ c, constOf S l = 
             exact ⟨v, by rw [x1.envSame m (hinv.vis.lookup hl)]; exact hr.1, rfl⟩
         obtain ⟨st0, hst0, hR0⟩ := inits_values hinits hf0
         have hal0 : Along ρ ρ d i := ⟨hinv.allT, fun _ hx => hx, fun _ _ _ => rfl⟩
-        obtain ⟨stf, hloop, hRf, halF⟩ :=
-          iter n 0 ρ ρ' st0 hal0 hR0 he (max fuel (n + 1)) (max fuel (n + 1)) (Nat.le_max_left _ _)
-            (Nat.le_max_right _ _)
+        obtain ⟨Gi, hiter⟩ := iter n 0 ρ ρ' st0 hal0 hR0 he
+        obtain ⟨GG, hGG1, hGG2, hGG3⟩ : ∃ GG, fuel ≤ GG ∧ Gi ≤ GG ∧ n + 1 ≤ GG :=
+          ⟨max (max fuel Gi) (n + 1), by omega, by omega, by omega⟩
+        obtain ⟨stf, hloop, hRf, halF⟩ := hiter GG GG hGG2 hGG3
         -- the Loop node
         obtain ⟨m6, f6, l6⟩ := genUniques_fresh _ h5d
         have hc6 := genUniques_castable _ h5d
         have k36 : CastOK s3 s6 := k4.trans (k4a.trans ((loopOutputs_cast _ _ _ _ h5b).trans (genUniques_cast _ h5d)))
         have k06 : CastOK s s6 := k03.trans k36
         have hlen : stf.length = outs.length := by rw [all2_len hRf, l6]
-        have evLoop : evalNodes S (max fuel (n + 1) + 1) env1
+        have evLoop : evalNodes S (GG + 1) env1
             [Node.loop (some ob) none inits outs (iv :: condIn :: ps) (bn ++ cnode :: ns3) (condOut :: os)]
             = some (env1.setMany outs stf) := by
           simp [evalNodes, evalNode, Env.getOpt, r1.1, Env.getMany, hst0, loopResult, loopTrip, hn,
@@ -978,9 +1127,9 @@ theorem for_step (S : Sem V) (fuel : Nat) (hConst : ∀ l, ∃ c, constOf S l = 
           (f6.2 m hmo).1 ((k03.trans (k4.trans (k4a.trans (loopOutputs_cast _ _ _ _ h5b)))).mono m hm)
         have xfin : Ext env (env1.setMany outs stf) s s6 :=
           ⟨fun m hm => by rw [envSetMany_frame outs stf env1 m (hnotin m hm)]; exact x1.envSame m hm, k06.ext⟩
-        refine ⟨max fuel (n + 1) + 1, env1.setMany outs stf, ?_, ?_, xfin, hfr.1⟩
-        · have ev1' := evalNodes_mono S ns0 fuel (max fuel (n + 1) + 1) _ _
-            (Nat.le_succ_of_le (Nat.le_max_left _ _)) ev1
+        refine ⟨GG + 1, env1.setMany outs stf, ?_, ?_, xfin, hfr.1⟩
+        · have ev1' := evalNodes_mono S ns0 fuel (GG + 1) _ _
+            (by omega) ev1
           simpa using evalNodes_seq ev1' evLoop
         · refine ⟨hsc.2.mono (fun y hy => after_in_used hfr hy), hinv.noattr.bindVals _ _,
             k06.sub hinv.cast, halF.allT, ?_, ?_⟩
@@ -1632,6 +1781,52 @@ theorem whileLive_of_stable {t : Name} {body : List Stmt} {lo : VSet}
     · simp only [usedVars, List.mem_singleton] at h
       exact Or.inr (Or.inr h)
 
+/-- `WhileLive` in terms of the exposed uses of the body. -/
+structure WhileLiveE (t : Name) (body : List Stmt) (lo F : VSet) : Prop where
+  lo_sub : ∀ y, y ∈ lo → y ∈ F
+  cond_in : t ∈ F
+  back : ∀ y, y ∈ liveInBlock body F → y ∈ F
+  sub_exposed : ∀ y, y ∈ F → y ∈ exposedBlock body [] ∨ y ∈ lo ∨ y = t
+
+theorem WhileLive.toE {t : Name} {body : List Stmt} {lo F : VSet} (h : WhileLive t body lo F)
+    (hexp : exposedBlock body [] = liveInBlock body []) : WhileLiveE t body lo F :=
+  ⟨h.lo_sub, h.cond_in, h.back, fun y hy => by rw [hexp]; exact h.sub_exposed y hy⟩
+
+theorem whileLiveE_of_stable {S : Sem V} {fuel : Nat} {t : Name} {body : List Stmt} {lo : VSet}
+    (hB : BodyFacts S fuel body (loopBodyLo (.while_ (.var t) body) lo))
+    (hst : stableStmt (.while_ (.var t) body) lo = true) :
+    WhileLiveE t body lo (loopBodyLo (.while_ (.var t) body) lo) := by
+  unfold stableStmt at hst
+  simp only [Bool.and_eq_true] at hst
+  obtain ⟨⟨⟨h1, h2⟩, h3⟩, _⟩ := hst
+  have hlo := vsubset_mem h1
+  have ht : t ∈ loopBodyLo (.while_ (.var t) body) lo := vsubset_mem h2 t (by simp [usedVars])
+  have hback := vsubset_mem h3
+  refine ⟨hlo, ht, hback, ?_⟩
+  have key : ∀ y, y ∈ loopBodyLo (.while_ (.var t) body) lo →
+      y ∈ loopBodyLo (.while_ (.var t) body) lo ∧ (y ∈ exposedBlock body [] ∨ y ∈ lo ∨ y = t) := by
+    conv => enter [y]; lhs; simp only [loopBodyLo]
+    apply fixIter_inv (fun X => ∀ y, y ∈ X →
+      y ∈ loopBodyLo (.while_ (.var t) body) lo ∧ (y ∈ exposedBlock body [] ∨ y ∈ lo ∨ y = t))
+    · intro X hX y hy
+      rcases mem_vunion.mp hy with h | h
+      · rcases mem_vunion.mp h with h | h
+        · refine ⟨hback y (hB.mono (fun z hz => (hX z hz).1) h), ?_⟩
+          rcases hB.toExp (fun z hz => (hX z hz).1) h with h' | h'
+          · exact Or.inl h'
+          · exact (hX y h').2
+        · simp only [usedVars, List.mem_singleton] at h
+          subst h
+          exact ⟨ht, Or.inr (Or.inr rfl)⟩
+      · exact ⟨hlo y h, Or.inr (Or.inl h)⟩
+    · intro y hy
+      rcases mem_vunion.mp hy with h | h
+      · exact ⟨hlo y h, Or.inr (Or.inl h)⟩
+      · simp only [usedVars, List.mem_singleton] at h
+        subst h
+        exact ⟨ht, Or.inr (Or.inr rfl)⟩
+  exact fun y hy => (key y hy).2
+
 /-- What stays true of the Python store over the iterations of a `while` loop. -/
 structure AlongW (ρ ρk : Store V) (d : VSet) : Prop where
   allT : AllT ρk
@@ -1645,8 +1840,8 @@ theorem while_core (S : Sem V) (fuel : Nat) (hConst : ∀ l, ∃ c, constOf S l 
     {t : Name} {body : List Stmt} {lo d F state : VSet} {ρ ρ' : Store V} {L L1 L2 L' : Locals} {env : Env V}
     {s s2 s2' s3 s4 s' : St} {condIn oc iv : Name} {ps : List Name} {ns0 bn nl : List Node} {bc : Option Name}
     {ilName : Name}
-    (hbody : ifBlock body = true) (hd : assignedBlock body = some d) (hs : loopState body lo = some state)
-    (hW : WhileLive t body lo F)
+    (hB : BodyFacts S fuel body F) (hd : assignedBlock body = some d) (hs : loopState body lo = some state)
+    (hW : WhileLiveE t body lo F)
     (hside : t ∈ state ∨ t ∉ liveInBlock body F)
     (hinv : Inv S F ρ L env s)
     (he : iterWhile (fun r => match r t with | some v => truthPV S v | none => none)
@@ -1681,7 +1876,7 @@ theorem while_core (S : Sem V) (fuel : Nat) (hConst : ∀ l, ∃ c, constOf S l 
         rw [hlt] at hl0
         cases hl0
         -- the body
-        obtain ⟨h4c, hbc⟩ := convLoopBody_ifBlock body L1 F hbody h4
+        obtain ⟨h4c, hbc⟩ := convLoopBody_nobrk body L1 F hB.nobrk h4
         subst hbc
         clear h4
         have h4 := h4c
@@ -1726,20 +1921,19 @@ theorem while_core (S : Sem V) (fuel : Nat) (hConst : ∀ l, ∃ c, constOf S l 
           cases q1; subst q2
           obtain ⟨rfl, rfl, hinits⟩ := loopInits_val L hinv.noattr state h5c
           -- the state variables
-          have hstate : ∀ x, x ∈ state ↔ x ∈ d ∧ (x ∈ liveInBlock body [] ∨ x ∈ lo) := by
+          have hstate : ∀ x, x ∈ state ↔ x ∈ d ∧ (x ∈ exposedBlock body [] ∨ x ∈ lo) := by
             intro x
             unfold loopState at hs
             rw [hd] at hs
             simp only at hs
             cases hs
             rw [mem_vinter, mem_vunion]
-            unfold exposedUses
-            rw [exposed_eq_live_block body [] hbody]
+            rfl
           have hstF : ∀ x, x ∈ state → x ∈ F := by
             intro x hx
             obtain ⟨_, hx'⟩ := (hstate x).mp hx
             rcases hx' with h' | h'
-            · exact hW.back x (live_mono_block hbody (fun _ hy => by cases hy) h')
+            · exact hW.back x (hB.ofExp x h')
             · exact hW.lo_sub x h'
           -- fresh names of the body inputs
           obtain ⟨hL1eq, hpslen, hc3, k3⟩ := loopEnter_parts h3
@@ -1778,7 +1972,7 @@ theorem while_core (S : Sem V) (fuel : Nat) (hConst : ∀ l, ∃ c, constOf S l 
           have hcnode : cnode = Node.op "" "Identity" [some n2] [condOut] [] := by
             rw [← hcnd]; rfl
           obtain ⟨hofresh, houused, hocast⟩ := genUnique_spec h5a
-          have k4 := ifBlock_cast L1 body F hbody h4
+          have k4 := hB.cast h4
           have k4a := genUnique_cast h5a
           -- the invariant at the start of an iteration
           have mkInv : ∀ (k : Nat) (cnd : V) (st : List V) (ρk : Store V), AlongW ρ ρk d →
@@ -1804,7 +1998,7 @@ theorem while_core (S : Sem V) (fuel : Nat) (hConst : ∀ l, ∃ c, constOf S l 
               · have hyF : y ∈ F := hW.back y hyL
                 have hyd : y ∉ d := by
                   intro hdm
-                  rcases live_rel_block body (A := []) (X := F) hbody (fun z hz => Or.inr hz) hyL with h' | _
+                  rcases hB.toExp (fun z hz => hz) hyL with h' | _
                   · exact hys ((hstate y).mpr ⟨hdm, Or.inl h'⟩)
                   · rcases hW.sub_exposed y hyF with h' | h' | h'
                     · exact hys ((hstate y).mpr ⟨hdm, Or.inl h'⟩)
@@ -1827,7 +2021,7 @@ theorem while_core (S : Sem V) (fuel : Nat) (hConst : ∀ l, ∃ c, constOf S l 
               AlongW ρ ρk d → All2 (fun v x => ρk x = some (PV.t v)) st state →
               iterWhile (fun r => match r t with | some v => truthPV S v | none => none)
                 (fun r => evalBlock S fuel body r) fl ρk = some (.normal ρf) →
-              ∀ (G a : Nat), fuel ≤ G → fl + 1 ≤ a →
+              ∃ G0, ∀ (G a : Nat), G0 ≤ G → fl + 1 ≤ a →
               ∃ stf, loopIter S (loopBodyFn S (fun e => evalNodes S G e (bn ++ ([cnode] ++ ns3))) env
                   (iv :: condIn :: ps) (condOut :: os)) a none k cnd st = some stf
                 ∧ All2 (fun v x => ρf x = some (PV.t v)) stf state ∧ AlongW ρ ρf d := by
@@ -1835,29 +2029,28 @@ theorem while_core (S : Sem V) (fuel : Nat) (hConst : ∀ l, ∃ c, constOf S l 
             induction fl with
             | zero => intro k ρk ρf st cnd _ _ _ hit; simp [iterWhile] at hit
             | succ fl ih =>
-              intro k ρk ρf st cnd hcv hal hR hit G a hG ha
+              intro k ρk ρf st cnd hcv hal hR hit
               simp only [iterWhile, hcv, truthPV] at hit
-              cases a with
-              | zero => omega
-              | succ a' =>
-                cases htr : S.truth cnd with
-                | none => simp [htr] at hit
-                | some bcur =>
+              cases htr : S.truth cnd with
+              | none => simp [htr] at hit
+              | some bcur =>
                   cases bcur with
                   | false =>
                     simp only [htr] at hit
                     cases hit
-                    exact ⟨st, by simp [loopIter, htr], hR, hal⟩
+                    refine ⟨0, fun G a _ ha => ?_⟩
+                    cases a with
+                    | zero => omega
+                    | succ a' => exact ⟨st, by simp [loopIter, htr], hR, hal⟩
                   | true =>
                     simp only [htr] at hit
                     cases hbk : evalBlock S fuel body ρk with
                     | none => simp [hbk] at hit
                     | some o1 =>
-                      obtain ⟨ρ1, rfl, run1⟩ := ifBlock_run S fuel body hbody hal.allT hbk
+                      obtain ⟨ρ1, rfl, run1⟩ := hB.run hal.allT hbk
                       simp only [hbk] at hit
                       have invk := mkInv k cnd st ρk hal hR
-                      obtain ⟨envB, evB, invB, xB, mB⟩ := block_step S fuel hConst hId body F hbody invk hbk h4
-                      have evBG := evalNodes_mono S bn fuel G _ _ hG evB
+                      obtain ⟨envB, ⟨G1, evB⟩, invB, xB, mB⟩ := hB.sim invk hbk h4
                       -- the re-computed condition
                       have hl2 := current_lookup hcur
                       have hρ1t : ρ1 t ≠ none := invB.bound t n2 hl2
@@ -1868,7 +2061,8 @@ theorem while_core (S : Sem V) (fuel : Nat) (hConst : ∀ l, ∃ c, constOf S l 
                         obtain ⟨m', hl', hr'⟩ := invB.rel t _ (restrict_some.mpr ⟨htF, hq1⟩)
                         rw [hl2] at hl'
                         cases hl'
-                        have evC : evalNodes S G envB [cnode] = some (envB.set condOut v1) := by
+                        have evC : ∀ G, evalNodes S G envB [cnode] = some (envB.set condOut v1) := by
+                          intro G
                           rw [hcnode]
                           exact evalNodes_op1 (vs := [some v1])
                             (by simp [List.mapM_cons, Env.getOpt, hr'.1]) (hId _)
@@ -1888,29 +2082,36 @@ theorem while_core (S : Sem V) (fuel : Nat) (hConst : ∀ l, ∃ c, constOf S l 
                             rw [hl] at hlm
                             cases hlm
                             exact ⟨v', hrm.1, rfl⟩
-                        obtain ⟨envD, evD, xD, _, mD, aD⟩ :=
-                          loopOutputs_sim S G hId L2 invC.noattr state (bn ++ [cnode]) [condOut] invC.vis hfO h5b
+                        obtain ⟨envD, evD0, xD, _, mD, aD⟩ :=
+                          loopOutputs_sim S 0 hId L2 invC.noattr state (bn ++ [cnode]) [condOut] invC.vis hfO h5b
+                        have evD : ∀ G, evalNodes S G (envB.set condOut v1) ns3 = some envD :=
+                          fun G => evalNodes_mono S ns3 0 G _ _ (Nat.zero_le G) evD0
                         obtain ⟨rs, hrs, hallD⟩ := outs_values aD
                         have hcoD : envD condOut = some v1 := by
                           rw [xD.envSame condOut (by rw [houused]; exact List.mem_cons_self)]
                           exact Env.set_same _ _ _
-                        have hbodyk : loopBodyFn S (fun e => evalNodes S G e (bn ++ ([cnode] ++ ns3))) env
+                        have hbodyk : ∀ G, G1 ≤ G → loopBodyFn S (fun e => evalNodes S G e (bn ++ ([cnode] ++ ns3))) env
                             (iv :: condIn :: ps) (condOut :: os) k cnd st = some (v1, rs) := by
+                          intro G hG
                           unfold loopBodyFn
                           have : evalNodes S G (Env.setMany env (iv :: condIn :: ps) (S.ofNat k :: cnd :: st))
                               (bn ++ ([cnode] ++ ns3)) = some envD :=
-                            evalNodes_seq evBG (evalNodes_seq (a := [cnode]) evC evD)
+                            evalNodes_seq (evB G hG) (evalNodes_seq (a := [cnode]) (evC G) (evD G))
                           simp only [this, Env.getMany, List.mapM_cons, hcoD, hrs]
                           rfl
                         have hal1 : AlongW ρ ρ1 d :=
                           ⟨run1.allT, fun x hx => run1.dom x (hal.dom x hx),
                            fun x hxd => by rw [run1.frame d hd x hxd]; exact hal.frame x hxd⟩
-                        obtain ⟨stf, hit', hRf, halF⟩ :=
-                          ih (k + 1) ρ1 ρf rs v1 hq1 hal1 hallD hit G a' hG (by omega)
-                        refine ⟨stf, ?_, hRf, halF⟩
-                        unfold loopIter
-                        simp only [htr, hbodyk]
-                        simpa using hit'
+                        obtain ⟨G0', hih⟩ := ih (k + 1) ρ1 ρf rs v1 hq1 hal1 hallD hit
+                        refine ⟨max G1 G0', fun G a hG ha => ?_⟩
+                        cases a with
+                        | zero => omega
+                        | succ a' =>
+                          obtain ⟨stf, hit', hRf, halF⟩ := hih G a' (by omega) (by omega)
+                          refine ⟨stf, ?_, hRf, halF⟩
+                          unfold loopIter
+                          simp only [htr, hbodyk G (by omega)]
+                          simpa using hit'
           -- the values the loop starts with
           have hf0 : ∀ x, x ∈ state → ∀ m, lookup L x = some (.val m) →
               ∃ v, env m = some v ∧ ρ x = some (PV.t v) := by
@@ -1925,8 +2126,9 @@ theorem while_core (S : Sem V) (fuel : Nat) (hConst : ∀ l, ∃ c, constOf S l 
               exact ⟨v, hr.1, rfl⟩
           obtain ⟨st0, hst0, hR0⟩ := inits_values hinits hf0
           have hal0 : AlongW ρ ρ d := ⟨hinv.allT, fun _ hx => hx, fun _ _ => rfl⟩
-          obtain ⟨stf, hloop, hRf, halF⟩ :=
-            iter fuel 0 ρ ρ' st0 v0 hρt hal0 hR0 he (fuel + 1) (fuel + 1) (Nat.le_succ _) (Nat.le_refl _)
+          obtain ⟨Gi, hiter⟩ := iter fuel 0 ρ ρ' st0 v0 hρt hal0 hR0 he
+          obtain ⟨GG, hGG2, hGG3⟩ : ∃ GG, Gi ≤ GG ∧ fuel + 1 ≤ GG := ⟨max Gi (fuel + 1), by omega, by omega⟩
+          obtain ⟨stf, hloop, hRf, halF⟩ := hiter GG GG hGG2 hGG3
           -- the Loop node
           obtain ⟨m6, f6, l6⟩ := genUniques_fresh _ h5d
           have hc6 := genUniques_castable _ h5d
@@ -1934,7 +2136,7 @@ theorem while_core (S : Sem V) (fuel : Nat) (hConst : ∀ l, ∃ c, constOf S l 
             k4.trans (k4a.trans ((loopOutputs_cast _ _ _ _ h5b).trans (genUniques_cast _ h5d)))
           have k06 : CastOK s s6 := k03.trans k36
           have hlen : stf.length = outs.length := by rw [all2_len hRf, l6]
-          have evLoop : evalNodes S (fuel + 1 + 1) env
+          have evLoop : evalNodes S (GG + 1) env
               [Node.loop none (some oc) inits outs (iv :: condIn :: ps) (bn ++ ([cnode] ++ ns3)) (condOut :: os)]
               = some (env.setMany outs stf) := by
             simp only [List.singleton_append] at hloop
@@ -1944,7 +2146,7 @@ theorem while_core (S : Sem V) (fuel : Nat) (hConst : ∀ l, ∃ c, constOf S l 
             (f6.2 m hmo).1 ((k03.trans (k4.trans (k4a.trans (loopOutputs_cast _ _ _ _ h5b)))).mono m hm)
           have xfin : Ext env (env.setMany outs stf) s s6 :=
             ⟨fun m hm => envSetMany_frame outs stf env m (hnotin m hm), k06.ext⟩
-          refine ⟨fuel + 1 + 1, env.setMany outs stf, ?_, ?_, xfin⟩
+          refine ⟨GG + 1, env.setMany outs stf, ?_, ?_, xfin⟩
           · simpa using evLoop
           · refine ⟨hvisF, hinv.noattr.bindVals _ _, k06.sub hinv.cast, halF.allT, ?_, ?_⟩
             · intro y q hy
@@ -2588,7 +2790,8 @@ theorem whileAt_step (S : Sem V) (fuel : Nat) (hConst : ∀ l, ∃ c, constOf S 
           (fun ρ0 o h0 hb => by
             obtain ⟨ρ1, ho, r1⟩ := ifBlock_run S fuel body hbody h0 hb
             exact ⟨ρ1, Or.inl ho, r1.allT⟩) fuel hinv.allT he
-        obtain ⟨G, env', ev, inv', _⟩ := while_core S fuel hConst hId hbody hd hs hW hside' hinv he
+        obtain ⟨G, env', ev, inv', _⟩ := while_core S fuel hConst hId (bodyFacts_of_ifBlock S fuel hConst hId _ hbody) hd hs
+          (hW.toE (exposed_eq_live_block body [] hbody)) hside' hinv he
           h2 h1 h3 h4 h5 hmono hvisF
         exact ⟨ρ1, rfl, G, env', ev, inv'⟩
       · cases hsp : splitBrk body with
@@ -2658,8 +2861,8 @@ theorem top_step (S : Sem V) (fuel : Nat) (hConst : ∀ l, ∃ c, constOf S l = 
           (fun n k ρ0 o h0 hit => by
             obtain ⟨ρ', ho, _⟩ := iterFor_run S fuel i hbody hd n k h0 hit
             exact ⟨ρ', ho⟩) hinv.allT he
-        obtain ⟨G, env', ev, inv', _, _⟩ := for_step S fuel hConst hId hT hb hbody hd hid
-          (forLive_of_stable hbody hstab) hinv he h
+        obtain ⟨G, env', ev, inv', _, _⟩ := for_step S fuel hConst hId hT hb (bodyFacts_of_ifBlock S fuel hConst hId _ hbody) hd hid
+          ((forLive_of_stable hbody hstab).toE (exposed_eq_live_block body [] hbody)) hinv he h
         exact ⟨ρ1, rfl, G, env', ev, inv'⟩
       · cases hsp : splitBrk body with
         | none => simp [hsp] at hbody
@@ -2743,19 +2946,16 @@ theorem convTop_for_sim (S : Sem V) (fuel : Nat) (hConst : ∀ l, ∃ c, constOf
           evalNodes_seq (evalNodes_mono S ns1 G1 _ _ _ (Nat.le_max_left _ _) ev1)
             (evalNodes_mono S _ G2 _ _ _ (Nat.le_max_right _ _) ev2), hm2⟩
 
-/-- **Refinement for functions made of assignments, nested `if`/`else`, `for i in range(n)` and `while t` loops
-(with or without a trailing `if b: break`).**
-The graph may need more evaluation fuel than the Python run (one unit per nesting level plus the trip
-count), so the conclusion is for some fuel; by `evalNodes_mono` it then holds for every larger one. -/
-theorem convert_correct_for (S : Sem V) (hConst : ∀ l, ∃ c, constOf S l = some c)
-    (hId : ∀ v, S.op "" "Identity" [some v] [] = some [v]) (hT : S.truth (S.ofBool true) = some true)
-    (hNot : ∀ v bk, S.truth v = some bk → ∃ w, S.op "" "Not" [some v] [] = some [w] ∧ S.truth w = some (!bk))
-    (hAnd : ∀ x y yb, S.truth y = some yb → ∃ w, S.op "" "And" [some x, some y] [] = some [w] ∧
-      (yb = false → S.truth w = some false) ∧ (yb = true → S.truth w = S.truth x))
-    {f : Func} {g : Graph}
-    (hil : forLine f.body = true) (hten : AllTensorParams f.params)
+/-- The function-level wrapper shared by the refinement theorems: the invariant holds at the head of the body,
+so a simulation of the body (`hsim`) gives the refinement. -/
+theorem convert_correct_via (S : Sem V) {f : Func} {g : Graph} (hten : AllTensorParams f.params)
     (hnames : (f.params.map Param.name).Nodup) (h : convert f = .ok g)
-    {fuel : Nat} {args vs : List V} (he : evalFunc S fuel f args = some vs) :
+    {fuel : Nat} {args vs : List V} (he : evalFunc S fuel f args = some vs)
+    (hsim : ∀ {ρ : Store V} {env : Env V} {s s' : St} {ns : List Node} {outs : List Name} {pvs : List (PV V)},
+      Inv S (liveInBlock f.body []) ρ [paramFrame f.params] env s →
+      evalBlock S fuel f.body ρ = some (.returned pvs) → pvs.mapM (toTensor S) = some vs →
+      convTop (tensorParams f.params) f.retCount [paramFrame f.params] f.body [] s = .ok ((ns, outs), s') →
+      ∃ G env', evalNodes S G env ns = some env' ∧ outs.mapM env' = some vs) :
     ∃ G, evalGraph S G g args = some vs := by
   obtain ⟨h, _, d0, ha0⟩ := convert_core h
   unfold convertCore at h
@@ -2820,12 +3020,28 @@ theorem convert_correct_for (S : Sem V) (hConst : ∀ l, ∃ c, constOf S l = so
                 simp only [List.mem_singleton] at hfr
                 subst hfr
                 exact setMany_defined _ _ _ x (by simpa using hlen.symm) (paramFrame_key _ x n hm)
-            obtain ⟨G, env', ev, hm⟩ := convTop_for_sim S fuel hConst hId hT hNot hAnd f.body
-              [paramFrame f.params] hil hinv hb he hc
+            obtain ⟨G, env', ev, hm⟩ := hsim hinv hb he hc
             refine ⟨G, ?_⟩
             unfold evalGraph
             simp only [hlen, if_true, ev]
             exact hm
       · rw [if_neg hlen] at he; cases he
+
+/-- **Refinement for functions made of assignments, nested `if`/`else`, `for i in range(n)` and `while t` loops
+(with or without a trailing `if b: break`).**
+The graph may need more evaluation fuel than the Python run (one unit per nesting level plus the trip
+count), so the conclusion is for some fuel; by `evalNodes_mono` it then holds for every larger one. -/
+theorem convert_correct_for (S : Sem V) (hConst : ∀ l, ∃ c, constOf S l = some c)
+    (hId : ∀ v, S.op "" "Identity" [some v] [] = some [v]) (hT : S.truth (S.ofBool true) = some true)
+    (hNot : ∀ v bk, S.truth v = some bk → ∃ w, S.op "" "Not" [some v] [] = some [w] ∧ S.truth w = some (!bk))
+    (hAnd : ∀ x y yb, S.truth y = some yb → ∃ w, S.op "" "And" [some x, some y] [] = some [w] ∧
+      (yb = false → S.truth w = some false) ∧ (yb = true → S.truth w = S.truth x))
+    {f : Func} {g : Graph}
+    (hil : forLine f.body = true) (hten : AllTensorParams f.params)
+    (hnames : (f.params.map Param.name).Nodup) (h : convert f = .ok g)
+    {fuel : Nat} {args vs : List V} (he : evalFunc S fuel f args = some vs) :
+    ∃ G, evalGraph S G g args = some vs :=
+  convert_correct_via S hten hnames h he
+    (fun hinv hb he' hc => convTop_for_sim S fuel hConst hId hT hNot hAnd f.body _ hil hinv hb he' hc)
 
 end OV.C01
